@@ -1,6 +1,7 @@
 """Shared skeleton of the checks: argument handling, delta debugging, the
 violation gate (same plan twice -> same verdict; minimised replay reproduces
 in a fresh process), known findings, exit codes."""
+import fnmatch
 import json
 import os
 import sys
@@ -96,7 +97,10 @@ class Outcome:
             self.matched.setdefault(key, []).append(key)
             return self.findings[key]
         for k in self.findings:
-            if k.endswith("*") and key.startswith(k[:-1]):
+            if k.endswith("*") and "*" not in k[:-1] and key.startswith(k[:-1]):
+                self.matched.setdefault(k, []).append(key)
+                return self.findings[k]
+            if "*" in k[:-1] and fnmatch.fnmatchcase(key, k):
                 self.matched.setdefault(k, []).append(key)
                 return self.findings[k]
         return None
